@@ -711,8 +711,12 @@ class Header:
             filenames,
             check_contiguity=check_contiguity,
         )
-        frame = "pulsarcentric" if header.get("pulsarcentric") else "topocentric"
-        frame = "barycentric" if header.get("barycentric") else "topocentric"
+        if header.get("barycentric"):
+            frame = "barycentric"
+        elif header.get("pulsarcentric"):
+            frame = "pulsarcentric"
+        else:
+            frame = "topocentric"
         hdr_update = {
             "data_type": params.data_types[header.get("data_type", 1)],
             "telescope": sigproc.telescope_ids.inv.get(
